@@ -25,7 +25,7 @@ def main(argv=None):
     mod = importlib.import_module(f"vmc.props.{pid.lower()}")
     if args.replay:
         rec = json.load(open(args.replay))
-        verdicts = mod.execute(rec["case"])
+        verdicts = getattr(mod, "replay", mod.execute)(rec["case"])
         failed = [v for v in verdicts if v["status"] == "violation"]
         for v in verdicts:
             print(v["status"], v.get("clause"), str(v.get("detail", ""))[:500])
